@@ -859,4 +859,221 @@ example : ¬ fnumberAst.Accepts ".5".toList := by decide
 example : ¬ fnumberAst.Accepts "1.5e".toList := by decide
 example : ¬ fnumberAst.Accepts "1..5".toList := by decide
 
+/-! ## sci_real  (`[+-]?(?:\d+(?:[eE][+-]?\d+)|(?:\d+\.\d*|\.\d+)(?:[eE][+-]?\d+)?)`) -/
+
+theorem plus_digit_head (x : List Char) : ((plus digit).ends x).head? =
+    if 1 ≤ (x.takeWhile dset.has).length then some (x.dropWhile dset.has) else none := by
+  unfold plus digit; rw [ends_rep_set, repSet_none_head]
+
+theorem star_digit_head (x : List Char) : ((star digit).ends x).head? = some (x.dropWhile dset.has) := by
+  unfold star digit; rw [ends_rep_set, repSet_none_head]; simp
+
+def StopsDigits (w : List Char) : Prop := w = [] ∨ ∃ c t, w = c :: t ∧ dset.has c = false
+
+theorem ureal_ends_nil : urealPart.ends [] = [] := by
+  unfold urealPart; simp [Re.ends, plus, digit, lit, repEnds]
+
+/-- the preferred match of the unsigned real part is a real number, and what is left does not go on with a digit -/
+theorem ureal_first_sound (x w : List Char) (h : (urealPart.ends x).head? = some w) :
+    ∃ u, x = u ++ w ∧ IsUReal u ∧ StopsDigits w := by
+  cases x with
+  | nil => rw [ureal_ends_nil] at h; simp at h
+  | cons c t =>
+    rw [ureal_ends_cons] at h
+    by_cases hdot : c = '.'
+    · subst hdot
+      rw [if_pos rfl, plus_digit_head] at h
+      split at h
+      · rename_i hrun
+        simp only [Option.some.injEq] at h; subst h
+        have hz := List.takeWhile_append_dropWhile (p := dset.has) (l := t)
+        refine ⟨'.' :: t.takeWhile dset.has, by simp [hz], ⟨[], t.takeWhile dset.has, rfl, by simp,
+          fun c hc => (has_digit c).1 (mem_takeWhile_sat _ _ c hc), Or.inr ?_⟩, dropWhile_head_not _ _⟩
+        intro h0; rw [h0] at hrun; simp at hrun
+      · simp at h
+    · rw [if_neg hdot] at h
+      by_cases hd : IsDigit c
+      · rw [if_pos hd] at h
+        have hx := List.takeWhile_append_dropWhile (p := dset.has) (l := c :: t)
+        cases hy : (c :: t).dropWhile dset.has with
+        | nil => rw [hy] at h; simp [Re.ends, lit] at h
+        | cons y0 z =>
+          rw [hy] at h hx
+          unfold lit at h
+          rw [ends_seq_set] at h
+          simp only [has_lit] at h
+          by_cases hy0 : y0 = '.'
+          · subst hy0
+            rw [if_pos rfl, star_digit_head] at h
+            simp only [Option.some.injEq] at h; subst h
+            have hz := List.takeWhile_append_dropWhile (p := dset.has) (l := z)
+            refine ⟨(c :: t).takeWhile dset.has ++ '.' :: z.takeWhile dset.has, ?_,
+              ⟨(c :: t).takeWhile dset.has, z.takeWhile dset.has, rfl,
+                fun c hc => (has_digit c).1 (mem_takeWhile_sat _ _ c hc),
+                fun c hc => (has_digit c).1 (mem_takeWhile_sat _ _ c hc), Or.inl ?_⟩, dropWhile_head_not _ _⟩
+            · rw [List.append_assoc, List.cons_append, hz]; exact hx.symm
+            · have : dset.has c = true := (has_digit c).2 hd
+              simp [List.takeWhile_cons, this]
+          · rw [if_neg hy0] at h; simp at h
+      · rw [if_neg hd] at h; simp at h
+
+theorem ureal_first_complete (u ex : List Char) (hu : IsUReal u) (hex : StopsDigits ex) :
+    (urealPart.ends (u ++ ex)).head? = some ex := by
+  obtain ⟨a, b, rfl, ha, hb, hne⟩ := hu
+  have hdot : dset.has '.' = false := by decide
+  cases a with
+  | nil =>
+    simp only [List.nil_append, List.cons_append]
+    rw [ureal_ends_cons, if_pos rfl, plus_digit_head]
+    obtain ⟨hd, ht⟩ := dropWhile_append_stop dset.has b ex (dset_all hb) hex
+    have hbne : b ≠ [] := by rcases hne with h | h; exact absurd rfl h; exact h
+    rw [ht, hd, if_pos (by cases b <;> simp_all)]
+  | cons a0 a' =>
+    have ha0 : IsDigit a0 := ha a0 (by simp)
+    simp only [List.cons_append, List.append_assoc]
+    rw [ureal_ends_cons, if_neg (digit_ne_dot ha0), if_pos ha0]
+    have hd := (dropWhile_append_stop dset.has (a0 :: a') ('.' :: (b ++ ex)) (dset_all ha)
+      (Or.inr ⟨'.', b ++ ex, rfl, hdot⟩)).1
+    simp only [List.cons_append] at hd
+    rw [hd]
+    unfold lit
+    rw [ends_seq_set]
+    simp only [has_lit, if_true]
+    rw [star_digit_head, (dropWhile_append_stop dset.has b ex (dset_all hb) hex).1]
+
+def sciBody : Re := alt (seq (plus digit) expoPart) (seq urealPart (opt expoPart))
+
+theorem expo_noDigit : ∀ c t, dset.has c = true → expoPart.ends (c :: t) = [] := by
+  intro c t h
+  unfold expoPart cls
+  rw [ends_seq_set]
+  have : ¬ eEs.has c = true := by
+    rw [has_eE]; have hd := (has_digit c).1 h
+    rintro (rfl | rfl) <;> (revert hd; unfold IsDigit; decide)
+  simp [this]
+
+theorem sci_A1_ends (x : List Char) : (seq (plus digit) expoPart).ends x =
+    if 1 ≤ (x.takeWhile dset.has).length then expoPart.ends (x.dropWhile dset.has) else [] := by
+  unfold plus digit
+  exact ends_seq_rep_set_noStart dset _ 1 _ expo_noDigit
+
+theorem sci_A2_head (x : List Char) : ((seq urealPart (opt expoPart)).ends x).head? =
+    (urealPart.ends x).head?.bind (fun w => ((opt expoPart).ends w).head?) :=
+  head_seq_total _ _ (total_opt_progress _ expo_progress) x
+
+theorem expo_ends_notE (y : List Char) (h : y = [] ∨ ∃ c t, y = c :: t ∧ eEs.has c = false) :
+    expoPart.ends y = [] := by
+  unfold expoPart cls
+  rw [ends_seq_set]
+  rcases h with rfl | ⟨c, t, rfl, hc⟩
+  · rfl
+  · simp [hc]
+
+/-- documented syntax of the unsigned part: digits + exponent, or a real number with an optional exponent -/
+def IsUSci (x : List Char) : Prop :=
+  (∃ ds ex, x = ds ++ ex ∧ ds ≠ [] ∧ (∀ c ∈ ds, IsDigit c) ∧ IsExpo ex) ∨
+  (∃ u ex, x = u ++ ex ∧ IsUReal u ∧ (ex = [] ∨ IsExpo ex))
+
+/-- documented syntax: optional sign, then `digits e±digits`, or `digits.digits*` / `.digits` with optional exponent -/
+def IsSciReal (s : List Char) : Prop :=
+  ∃ sg x, s = sg ++ x ∧ (sg = [] ∨ ∃ c, IsSign c ∧ sg = [c]) ∧ IsUSci x
+
+theorem sci_body_language (x : List Char) : sciBody.Accepts x ↔ IsUSci x := by
+  unfold Re.Accepts sciBody
+  show ((seq (plus digit) expoPart).ends x ++ (seq urealPart (opt expoPart)).ends x).head? = some [] ↔ _
+  rw [List.head?_append, sci_A1_ends, sci_A2_head]
+  constructor
+  · intro h
+    by_cases hrun : 1 ≤ (x.takeWhile dset.has).length
+    · rw [if_pos hrun] at h
+      cases h1 : (expoPart.ends (x.dropWhile dset.has)).head? with
+      | some e =>
+        rw [h1] at h
+        simp only [Option.some_or, Option.some.injEq] at h
+        subst h
+        left
+        refine ⟨x.takeWhile dset.has, x.dropWhile dset.has, (List.takeWhile_append_dropWhile).symm, ?_,
+          fun c hc => (has_digit c).1 (mem_takeWhile_sat _ _ c hc), (expo_accepts _).1 h1⟩
+        intro h0; rw [h0] at hrun; simp at hrun
+      | none =>
+        rw [h1] at h
+        simp only [Option.none_or] at h
+        rw [Option.bind_eq_some_iff] at h
+        obtain ⟨w, hw, hw2⟩ := h
+        obtain ⟨u, rfl, hu, _⟩ := ureal_first_sound x w hw
+        right
+        refine ⟨u, w, rfl, hu, ?_⟩
+        rcases (opt_expo_head w).1 hw2 with h' | h'
+        · right; exact (expo_accepts w).1 h'
+        · left; exact h'
+    · rw [if_neg hrun] at h
+      simp only [List.head?_nil, Option.none_or] at h
+      rw [Option.bind_eq_some_iff] at h
+      obtain ⟨w, hw, hw2⟩ := h
+      obtain ⟨u, rfl, hu, _⟩ := ureal_first_sound x w hw
+      right
+      refine ⟨u, w, rfl, hu, ?_⟩
+      rcases (opt_expo_head w).1 hw2 with h' | h'
+      · right; exact (expo_accepts w).1 h'
+      · left; exact h'
+  · rintro (⟨ds, ex, rfl, hne, hds, hex⟩ | ⟨u, ex, rfl, hu, hex⟩)
+    · obtain ⟨hd, ht⟩ := dropWhile_append_stop dset.has ds ex (dset_all hds) (expo_stop (Or.inr hex))
+      rw [ht, hd, if_pos (by cases ds <;> simp_all)]
+      have := (expo_accepts ex).2 hex
+      unfold Re.Accepts at this
+      rw [this]; rfl
+    · have hstop : StopsDigits ex := expo_stop hex
+      have h2 : (urealPart.ends (u ++ ex)).head? = some ex := ureal_first_complete u ex hu hstop
+      have hoe : ((opt expoPart).ends ex).head? = some [] := by
+        rw [opt_expo_head]
+        rcases hex with h | h
+        · right; exact h
+        · left; exact (expo_accepts ex).2 h
+      -- the first alternative finds nothing: after the leading digits (if any) comes the '.'
+      have h1 : (if 1 ≤ ((u ++ ex).takeWhile dset.has).length then
+          expoPart.ends ((u ++ ex).dropWhile dset.has) else []) = [] := by
+        obtain ⟨a, b, rfl, ha, hb, _⟩ := hu
+        have hdot : dset.has '.' = false := by decide
+        have hd := (dropWhile_append_stop dset.has a ('.' :: (b ++ ex)) (dset_all ha)
+          (Or.inr ⟨'.', b ++ ex, rfl, hdot⟩)).1
+        have : a ++ '.' :: b ++ ex = a ++ '.' :: (b ++ ex) := by simp
+        rw [this, hd]
+        split
+        · exact expo_ends_notE _ (Or.inr ⟨'.', _, rfl, by decide⟩)
+        · rfl
+      rw [h1, h2]
+      simp [hoe]
+
+theorem sci_noSign : ∀ c t, IsSign c → sciBody.ends (c :: t) = [] := by
+  intro c t h
+  unfold sciBody
+  show (seq (plus digit) expoPart).ends (c :: t) ++ (seq urealPart (opt expoPart)).ends (c :: t) = []
+  have hc : dset.has c = false := by
+    cases hh : dset.has c with
+    | false => rfl
+    | true => exact absurd ((has_digit c).1 hh) (sign_not_digit h)
+  rw [sci_A1_ends]
+  have : (seq urealPart (opt expoPart)).ends (c :: t) = [] := by
+    simp only [Re.ends]
+    have := ureal_noSign c t h
+    rw [this]; rfl
+  rw [this]
+  simp [List.takeWhile_cons, hc]
+
+theorem sci_real_language (s : List Char) : sciRealAst.Accepts s ↔ IsSciReal s := by
+  have : sciRealAst = seq signOpt sciBody := rfl
+  rw [this]
+  unfold IsSciReal
+  rw [accepts_signOpt _ sci_noSign]
+  simp only [sci_body_language]
+
+example : sciRealAst.Accepts "-1e5".toList := by decide
+example : sciRealAst.Accepts "1.5E-3".toList := by decide
+example : sciRealAst.Accepts ".5".toList := by decide
+example : sciRealAst.Accepts "1.e5".toList := by decide
+example : ¬ sciRealAst.Accepts "15".toList := by decide
+example : ¬ sciRealAst.Accepts "1e".toList := by decide
+example : ¬ sciRealAst.Accepts "1.5e+".toList := by decide
+example : ¬ sciRealAst.Accepts "1e5.5".toList := by decide
+
 end PP.C18
